@@ -127,6 +127,25 @@ fn run_case(out: &mut Out, line: &Value) {
             out.cmp(line, "WeekdaySet::iter(start)", &line["iter"], guard(|| seq(a.iter(d).collect())));
             out.cmp(line, "WeekdaySet::iter(start).rev()", &Value::Array(line["iter"].as_array().unwrap().iter().rev().cloned().collect()), guard(|| seq(a.iter(d).rev().collect())));
             out.cmp(line, "WeekdaySet::single", &line["single"], guard(|| proj_set(WeekdaySet::single(d))));
+            // other routes to the same behaviour, all derived from the specification's sequence iter(start): the adaptor methods of
+            // the standard traits (an implementation may override any of them) and collecting with repeated members
+            let it = line["iter"].as_array().unwrap().clone();
+            let n = it.len();
+            let at = |k: usize| if k < n { it[k].clone() } else { json!(-1) };
+            out.cmp(line, "iter(start).last()", &at(n.wrapping_sub(1)), guard(|| json!(owd(a.iter(d).last()))));
+            out.cmp(line, "iter(start).count()", &json!(n), guard(|| json!(a.iter(d).count())));
+            // (size_hint is the trait default (0, None) although the iterator is an ExactSizeIterator - outside the C19 statement, not judged)
+            out.cmp(line, "iter(start).len()", &json!(n), guard(|| json!(a.iter(d).len())));
+            for k in 0..=n.min(7) {
+                out.cmp(line, "iter(start).nth(k)", &at(k), guard(|| json!(owd(a.iter(d).nth(k)))));
+                out.cmp(line, "iter(start).rev().nth(k)", &at(n.wrapping_sub(1).wrapping_sub(k)), guard(|| json!(owd(a.iter(d).rev().nth(k)))));
+                out.cmp(line, "iter(start).skip(k).next()", &at(k), guard(|| json!(owd(a.iter(d).skip(k).next()))));
+                out.cmp(line, "iter(start).skip(k).last()", &(if k < n { at(n - 1) } else { json!(-1) }), guard(|| json!(owd(a.iter(d).skip(k).last()))));
+            }
+            out.cmp(line, "iter(start).min/max by position", &json!([at(0), at(n.wrapping_sub(1))]), guard(|| { let v: Vec<Weekday> = a.iter(d).collect(); json!([owd(v.first().copied()), owd(v.last().copied())]) }));
+            out.cmp(line, "collect() of a sequence with repeated members", &line["a"], guard(|| proj_set(a.iter(d).chain(a.iter(Weekday::Mon)).chain(a.iter(d).rev()).collect::<WeekdaySet>())));
+            out.cmp(line, "collect() of members plus the start day twice", &line["insert"], guard(|| proj_set(a.iter(d).chain([d, d]).collect::<WeekdaySet>())));
+            out.cmp(line, "extend-like fold of insert", &line["insert"], guard(|| { let mut s = WeekdaySet::EMPTY; for x in a.iter(d).chain([d, d]) { s.insert(x); } proj_set(s) }));
         }
         "pair" => {
             let (a, b) = (mk_set(&line["a"]), mk_set(&line["b"]));
